@@ -29,6 +29,23 @@ def opOfJson (j : Json) : Except String Op := do
   | "call" => pure .call
   | _ => throw s!"bad op {k}"
 
+/-- an operation of the multi-quantizer system: {"op":"local","i":n,"o":{single-quantizer op}},
+    {"op":"upd_caller","i":n,"k":n}, {"op":"upd_quant","i":n,"j":n}, {"op":"assign","k":n,"v":rat} -/
+def mopOfJson (j : Json) : Except String MOp := do
+  let k ← getStr j "op"
+  match k with
+  | "local" => pure (.local (← getNat j "i") (← opOfJson (← j.getObjVal? "o")))
+  | "upd_caller" => pure (.updateFromCaller (← getNat j "i") (← getNat j "k"))
+  | "upd_quant" => pure (.updateFromQuant (← getNat j "i") (← getNat j "j"))
+  | "assign" => pure (.assign (← getNat j "k") (← getRat j "v"))
+  | _ => throw s!"bad multi op {k}"
+
+def sysToJson (rd : Rnd) (s : Sys) (nq nw : Nat) : Json :=
+  Json.mkObj [
+    ("qs", Json.arr ((List.range nq).map fun i =>
+        Json.mkObj (qstateToJson (s.q i) ++ [("eff", ratToJson ((s.q i).eff rd))])).toArray),
+    ("ws", Json.arr ((List.range nw).map fun k => ratToJson (s.w k)).toArray)]
+
 def qobjOfJson (j : Json) : Except String QObj := do
   let k ← getStr j "kind"
   let kind ← match k with
@@ -141,6 +158,32 @@ def handle (j : Json) : Except String Json := do
       ("any_raise", Json.bool (QState.anyRaise rd s0 ops)),
       ("last_write", match lastWrite ops with | none => Json.null | some v => ratToJson v),
       ("init_eff", ratToJson (s0.eff rd))]
+  | "multi" =>
+    -- several quantizers + caller-owned variables, interleaved history (Sys.step); per step the
+    -- state of every quantizer and variable; at the end, per quantizer, the last value written to
+    -- it (lastWrite of its projected history) and the length of that history
+    let qsJ ← (← j.getObjVal? "qs").getArr?
+    let qs ← qsJ.toList.mapM qstateOfJson
+    let ws ← getRatList j "ws"
+    let opsJ ← (← j.getObjVal? "ops").getArr?
+    let ops ← opsJ.toList.mapM mopOfJson
+    let s0 : Sys := { q := fun i => qs.getD i default, w := fun k => ws.getD k 0 }
+    let nq := qs.length
+    let nw := ws.length
+    let mut s := s0
+    let mut out : Array Json := #[]
+    for o in ops do
+      s := s.step rd o
+      out := out.push (sysToJson rd s nq nw)
+    let fin := Sys.run rd s0 ops
+    let lw := (List.range nq).map fun b =>
+      match lastWrite (proj rd b s0 ops) with
+      | none => Json.null
+      | some v => ratToJson v
+    pure <| Json.mkObj [("steps", Json.arr out), ("final", sysToJson rd fin nq nw),
+      ("last_write", Json.arr lw.toArray),
+      ("own_history_len", Json.arr ((List.range nq).map fun b =>
+          Json.num ((proj rd b s0 ops).length : Int)).toArray)]
   | "getq" =>
     let layersJ ← (← j.getObjVal? "layers").getArr?
     let layers ← layersJ.toList.mapM layerOfJson
